@@ -2,7 +2,7 @@
 entry is decided symbolically through a caller-supplied key-equality term, so every lookup forks over "hits entry i"
 (first match) / "hits nothing".  Bounded by the number of tracked entries - stated by the checks that use it."""
 import re
-from mir import SV, Agg, Enum, Opaque, VecVal, MapVal, MapElemRef, LocalCell, MutRef, ElemRef, Unsupported, fork_env
+from mir import SV, Agg, Enum, Opaque, VecVal, MapVal, MapElemRef, LocalCell, ProjRef, MutRef, ElemRef, Unsupported, fork_env
 from models import IterVal, mk_option
 
 
@@ -13,7 +13,7 @@ class EntryVal:
 
 
 def _val(it, x):
-    return it.deref(x, it.cur_env) if isinstance(x, (MutRef, ElemRef, MapElemRef, LocalCell)) else x
+    return it.deref(x, it.cur_env) if isinstance(x, (MutRef, ElemRef, MapElemRef, LocalCell, ProjRef)) else x
 
 
 def mk_map_models(key_eq, prefix=r"(std::collections::)?HashMap::<.*>"):
@@ -42,6 +42,10 @@ def mk_map_models(key_eq, prefix=r"(std::collections::)?HashMap::<.*>"):
         for pc, i in lookups(it, mp, key):
             res.append((pc, it._mk_enum("Option", "Some", [mp.entries[i][1]]) if i >= 0 else it._mk_enum("Option", "None", []), "return", None))
         return res
+
+    def m_contains_key(it, a, callee):
+        mp, key = _val(it, a[0]), _val(it, a[1])
+        return [(pc, SV("bool", "true" if i >= 0 else "false"), "return", None) for pc, i in lookups(it, mp, key)]
 
     def m_insert(it, a, callee):
         mp, key, val = _val(it, a[0]), _val(it, a[1]), _val(it, a[2])
@@ -137,6 +141,7 @@ def mk_map_models(key_eq, prefix=r"(std::collections::)?HashMap::<.*>"):
     return {
         r"^%s::get_mut::<" % H: m_get_mut,
         r"^%s::get::<" % H: m_get,
+        r"^%s::contains_key::<" % H: m_contains_key,
         r"^%s::insert$" % H: m_insert,
         r"^%s::entry$" % H: m_entry,
         r"^%s::iter$" % H: m_iter,
